@@ -133,11 +133,19 @@ def build_trace_static(ctx, tid, desc, net, k):
 
 
 def dynamic_traces(ctx, tid0, desc, net, k, rng):
-    out = ctx.scratch / "dyn" / str(k)
-    render(net, "cvode", "dense", out)
+    """both back-ends: the cvode class solves the element system with the stand-in's dense LU, the odeint class with uBLAS-style
+    lu_factorize / lu_substitute (pivot vector written only on a swap, as uBLAS does)"""
+    a = _dynamic_one(ctx, tid0, desc, net, k, rng, "cvode", "dense", [])
+    b = _dynamic_one(ctx, tid0 + len(a), desc, net, k, rng, "odeint", "rosenbrock4", ["-DODEINT"])
+    return a + b
+
+
+def _dynamic_one(ctx, tid0, desc, net, k, rng, solver, method, flags):
+    out = ctx.scratch / "dyn" / f"{k}_{solver}"
+    render(net, solver, method, out)
     macros = creader.parse_macros((out / "include/naunet_macros.h").read_text())
-    exe = ctx.scratch / f"renorm_{k}"
-    p = compile_cpp(sorted((out / "src").glob("*.cpp")) + [SHIM / "renorm_driver.cpp"], [SHIM / "include", out / "include"], exe)
+    exe = ctx.scratch / f"renorm_{k}_{solver}"
+    p = compile_cpp(sorted((out / "src").glob("*.cpp")) + [SHIM / "renorm_driver.cpp"], [SHIM / "include", out / "include"], exe, flags)
     if p.returncode != 0:
         ctx.violation("C16|Compile|renorm", "generated project does not compile against the stand-in: " + p.stderr[-800:], {"desc": desc})
         return []
@@ -156,9 +164,9 @@ def dynamic_traces(ctx, tid0, desc, net, k, rng):
         ab = [rng.uniform(0.1, 5.0) for _ in range(neq)]
         lines.append(" ".join([str(tid0 + q)] + [repr(x) for x in refA] + [repr(x) for x in ab] + [str(len(ops))] + [str(o) for o in ops]))
         metas.append((refA, ab, ops))
-    f = ctx.scratch / f"renorm_{k}.txt"
+    f = ctx.scratch / f"renorm_{k}_{solver}.txt"
     f.write_text("\n".join(lines) + "\n")
-    wd = ctx.sub(f"rwd_{k}")
+    wd = ctx.sub(f"rwd_{k}_{solver}")
     pr = subprocess.run([str(exe), str(f), str(wd)], capture_output=True, text=True, timeout=300)
     if pr.returncode != 0:
         raise MachineryError(f"renorm driver failed: {pr.stderr[-500:]}")
